@@ -219,8 +219,13 @@ def crash_scenario(tid, root, setup, op, reader, units=(), views=(), frame=(), u
     ks = list(range(1, rec.n_mut + 1))
     if max_cuts and len(ks) > max_cuts:
         step = len(ks) / max_cuts
-        # keep every non-write mutation (directory-level steps) and sample the writes
-        structural = {e["k"] for e in rec.events if e["op"] not in ("write", "open", "close", "ftruncate", "chmod")}
+        # keep EVERY mutation that touches a visible name (no path component starting with "." - both listings skip
+        # dot names: staging dirs/files, .update.* temp files) plus every rename; sample the work inside hidden names
+        def visible(e):
+            paths = [e["rp"]] + [e[f] for f in ("src", "dst") if f in e]
+            return e["op"] == "rename" or any(not any(c.startswith(".") for c in q.split("/")) for q in paths)
+
+        structural = {e["k"] for e in rec.events if e["op"] not in ("close", "fault") and visible(e)}
         ks = sorted({ks[int(j * step)] for j in range(max_cuts)} | {1, rec.n_mut} | structural)
     write_ks = {e["k"] for e in rec.events if e["op"] == "write"}
     plan = [("cut", k, False) for k in ks] + [("cut-half", k, True) for k in ks if k in write_ks and k % (7 if max_cuts else 2) == 0]
@@ -499,7 +504,7 @@ def run(ck):
         rounds = 1
     elif ck.quick:
         want = [("vdb", "install", False, False, False), ("vdb", "uninstall", True, True, True), ("vdb", "replace_same", True, False, True),
-                ("bin", "install", False, False, False), ("bin", "replace_same", True, True, True),
+                ("vdb", "replace_diff", True, True, False), ("bin", "install", False, False, False), ("bin", "replace_same", True, True, True),
                 ("bin", "uninstall", True, False, False)]
         shapes = [uniq[w] for w in want]
         rounds = 1
@@ -602,7 +607,7 @@ def run(ck):
 
             root = os.path.join(sdir, "root")
             evs, info = crash_scenario(tid, root, setup, op_fn, reader, units=units, views=views, frame=[kind],
-                                       unseen=unseen, max_cuts=ck.pick(16, None))
+                                       unseen=unseen, max_cuts=ck.pick(12, None))
             fs_events += evs
             srccore = pkg_digest(newpkg, core=True) if newpf else "-"
             base = dict(op=op, oldcpv=f"{CAT}/{oldpf}" if oldpf else "-", newcpv=f"{CAT}/{newpf}" if newpf else "-", srccore=srccore,
